@@ -21,7 +21,7 @@ STUBS = [
     "logging stripped: logger.<level>(...) statements in geneticengine.*/geml.* compiled as pass (import hook, current source, no .pyc)",
     "clock: geneticengine.evaluation.tracker.monotonic_ns / recorder.monotonic_ns return 0 (time budgets outside the claim)",
     "isinstance(x, TreeNode) answered by the native isinstance under CrossHair (tool compatibility shim)",
-    "typing alias __hash__ (Union/Annotated used as dict keys) evaluated outside the CrossHair tracer (tool compatibility shim)",
+    "typing alias __hash__ / __repr__ (Union/Annotated used as dict keys or sorted by their text) evaluated outside the CrossHair tracer (tool compatibility shim)",
     "lists of classes indexed by a symbolic integer fork per element (CrossHair's symbolic `type` values disabled; tool compatibility shim)",
     "grammar.utils.get_arguments runs outside the CrossHair tracer (same code, concrete class arguments only; performance)",
 ]
@@ -119,10 +119,25 @@ def install_crosshair_shims():
         __hash__._verif_untraced = True
         cls.__hash__ = __hash__
 
+    def _untraced_repr(cls):
+        r = cls.__dict__.get("__repr__")
+        if r is None or getattr(r, "_verif_untraced", False):
+            return
+
+        def __repr__(self, _r=r):
+            with NoTracing():
+                return _r(self)
+
+        __repr__._verif_untraced = True
+        cls.__repr__ = __repr__
+
     for cname in ("_GenericAlias", "_UnionGenericAlias", "_AnnotatedAlias", "_BaseGenericAlias"):
         c = getattr(typing, cname, None)
         if c is not None:
             _untraced_hash(c)
+            # str(Annotated[T, <metahandler holding a lambda>]) contains an object address, which
+            # CrossHair turns into a symbolic string ("__str__ returned non-string" inside sorted(key=str))
+            _untraced_repr(c)
 
     # (4) a list / tuple of CLASSES indexed by a symbolic integer (random.choice over productions or
     # union members): CrossHair would build one symbolic `type` value; realising it later is
